@@ -28,3 +28,23 @@ static_assert(!std::is_move_constructible_v<op_t<let_s>> && !std::is_copy_constr
 static_assert(!std::is_move_constructible_v<op_t<split_s>> && !std::is_copy_constructible_v<op_t<split_s>>, "split operation state must be immovable");
 static_assert(!std::is_move_constructible_v<op_t<wa_s>> && !std::is_copy_constructible_v<op_t<wa_s>>, "when_all operation state must be immovable");
 static_assert(!std::is_move_constructible_v<op_t<dv_s>> && !std::is_copy_constructible_v<op_t<dv_s>>, "drop_value operation state must be immovable");
+
+// drop_operation_state destroys the predecessor's operation state *before* it completes downstream, so the
+// values it forwards must be copies: a predecessor that sends an lvalue reference into its own state (split does)
+// must arrive downstream as an rvalue of the decayed type, never as a reference into the destroyed state.
+#include <pika/execution/algorithms/drop_operation_state.hpp>
+struct by_value_sink
+{
+    template <typename... Ts> void set_value(Ts&&...) && noexcept
+    {
+        static_assert((!std::is_lvalue_reference_v<Ts> && ...), "drop_operation_state forwards a reference into the operation state it has just destroyed (values must be decayed copies)");
+    }
+    template <typename E> void set_error(E&&) && noexcept {}
+    void set_stopped() && noexcept {}
+    constexpr ex::empty_env get_env() const& noexcept { return {}; }
+};
+inline void instantiate_drop_operation_state()
+{
+    auto os = ex::connect(ex::drop_operation_state(ex::split(ex::just(1))), by_value_sink{});
+    ex::start(os);
+}
